@@ -247,6 +247,19 @@ chk(
     "as known findings (F11, F21 and its consequence) and matched by mechanism.",
 )
 
+chk(
+    "C20", "wdverif/props/c20.py",
+    "replay / move-contract / scope oracles on the real WindowsApiEmitter and FSEventsEmitter fed native batches from documented-semantics simulators through import shims; exact round-trip oracle on the two binary decoders",
+    "Exploration: paced histories executed on a real scratch directory are rendered into native notifications (Windows: "
+    "FILE_NOTIFY_INFORMATION chains with padding and cuts, parent MODIFIED noise, optional cut between RENAMED_OLD/NEW; FSEvents: per-item "
+    "events with real inodes, flag coalescing per (item, path), extra cuts) and fed to the real queue_events()/events_callback(); after "
+    "every delivery the emitter's stream is replayed and compared with the disk; operations alone in a delivery are judged for the "
+    "rename / move-in / move-out contract; non-recursive scope; no swallowed exception. Decoders: random buffers of 0-6 records, name "
+    "lengths 0-255 (inotify) / 1-300 UTF-16 units incl. non-BMP and U+FEFF (Windows), paddings.",
+    "Conditional on simulator fidelity (listed under assumptions in the evidence): neither OS is present. Seven genuine deviations "
+    "are recorded as known findings (F13a-c, F14, F23-F25) and matched by mechanism; they cannot be confirmed on the real systems from here.",
+)
+
 _PENDING = "check not built yet in this round of work (planned in DESIGN.md section 3); not claimed until its monitor exists"
 _built = {c["id"] for c in CHECKS}
 for n in range(1, 21):
